@@ -1,6 +1,6 @@
 SPECIFICATION ObsSpec
 CONSTANTS
-  Node = {1, 2, 3, 4, 5}
+  Node = {1, 2, 3, 4, 5, 6, 7, 8, 9}
   Weaken = {}
   MCCl <- EmptyCl
   PszSet <- EmptySet
